@@ -2,12 +2,66 @@ package props
 
 import (
 	"bytes"
+	"encoding/binary"
 	"strings"
 	"testing"
+
+	"pgregory.net/rapid"
 
 	"verif/harness/core"
 	"verif/harness/gen"
 )
+
+// fuzzRapid turns a property's rapid generator into a native coverage-guided fuzz target: the
+// fuzzer mutates the bit stream the generator draws from (rapid.MakeFuzz), so every input is a
+// case of the property's own domain, and the property's oracle runs inside the target.
+func fuzzRapid[C any](f *testing.F, p core.Prop[C]) {
+	// starting corpus: bit streams long enough for a whole case (rapid reads 8 bytes per draw); fixed
+	// data (a xorshift sequence per entry), all zeros (every draw minimal) and all ones
+	for i := uint64(1); i <= 24; i++ {
+		buf := make([]byte, 6144)
+		x := i * 0x9E3779B97F4A7C15
+		for j := 0; j+8 <= len(buf); j += 8 {
+			x ^= x << 13
+			x ^= x >> 7
+			x ^= x << 17
+			binary.LittleEndian.PutUint64(buf[j:], x)
+		}
+		f.Add(buf)
+	}
+	f.Add(make([]byte, 6144))
+	f.Add(bytes.Repeat([]byte{0xff}, 6144))
+	f.Fuzz(rapid.MakeFuzz(func(t *rapid.T) {
+		c := p.Gen(t)
+		if v := p.RunOne(c); v != nil {
+			t.Fatalf("VIOLATION-DETAIL property=%s %s", p.ID, v)
+		}
+	}))
+}
+
+func FuzzC01(f *testing.F) {
+	fuzzRapid(f, core.Prop[c01Case]{ID: "C01", Test: "TestC01", Gen: c01Gen, Run: c01Run})
+}
+
+func FuzzC02(f *testing.F) {
+	fuzzRapid(f, core.Prop[c02Case]{ID: "C02", Test: "TestC02", Gen: c02Gen, Run: c02Run})
+}
+
+func FuzzC06(f *testing.F) {
+	fuzzRapid(f, core.Prop[c06Case]{ID: "C06", Test: "TestC06", Gen: c06Gen, Run: c06Run})
+}
+
+func FuzzC10(f *testing.F) {
+	fuzzRapid(f, core.Prop[c10Case]{ID: "C10", Test: "TestC10", Gen: c10Gen, Run: c10Run})
+}
+
+func FuzzC11(f *testing.F) {
+	fuzzRapid(f, core.Prop[c11Case]{ID: "C11", Test: "TestC11", Gen: c11Gen, Run: c11Run})
+}
+
+func FuzzC20(f *testing.F) {
+	fuzzRapid(f, core.Prop[c20Case]{ID: "C20", Test: "TestC20", Gen: c20Gen, Run: c20Run})
+}
 
 // FuzzC09 is the native coverage-guided fuzz target for the EML parser (thorough tier only).
 // The semantic oracle (no panic, terminates) is inside the target; a failing input is written
